@@ -32,7 +32,8 @@ pub fn make_input(id: String, src: &Source, rng: &mut Rng) -> Option<Input> {
 }
 
 /// `c2d_false`: emit a c2d file that keeps its false nodes (`O 0 0`), i.e. dead branches stay in
-/// the file; the c2d loader performs no false-elimination (finding K7 for the syntactic core).
+/// the file; the c2d loader performs no false-elimination (finding K7 for the syntactic core,
+/// repaired by F22: calculate_core ignores dead branches).
 pub fn make_input_class(id: String, src: &Source, rng: &mut Rng, c2d_false: bool) -> Option<Input> {
     let mut opts = Opts::random(rng, src.n);
     if c2d_false {
